@@ -5,11 +5,14 @@
    a label of at most 1000 scalar values whose Punycode form is longer than 2000; C10_case_refuted: AdapterOK does
    not constrain bidi_class).  Both are proved, for every adapter, on the adapter-free class AN (all-ASCII names
    without an xn-- label): C10_an, C10_idem_an, C10_case_an.  Corrected full-strength statements, not proved:
-   C10_idem_statement2, C10_case_statement2 (Proofs/Idna_C10b_Stmt.v); see theorem_notes in tools/props_d/C10.py. *)
+   C10_idem_statement2, C10_case_statement2 (Proofs/Idna_C10b_Stmt.v); see theorem_notes in tools/props_d/C10.py.
+   Idempotence is PROVED for every input outside Known_C10_long (C10_idem3 : C10_idem_statement3 of
+   Proofs/Idna_C10c_Idem.v = C10_idem_statement2 with two more sampled adapter premises, AdapterUSV and MapPrefix). *)
 From RU Require Import Base.Prelude Base.Utf8 Base.U32_c13 Gen.Tables Model.Punycode Model.Uts46
   Proofs.Idna_Sim Proofs.Idna_Api Proofs.Idna_Known Proofs.Idna_Hyp Proofs.Idna_Tables Proofs.Idna_Redisc
   Proofs.Idna_C10_Deny Proofs.Idna_C10_Prefix Proofs.Idna_C10_Inner Proofs.Idna_C10_Walk Proofs.Idna_C10_Config
-  Proofs.Idna_C10b_Long Proofs.Idna_C10b_AsciiInner Proofs.Idna_C10b_AsciiWalk Proofs.Idna_C10b_Stmt Proofs.Idna_C10b_LongRej.
+  Proofs.Idna_C10b_Long Proofs.Idna_C10b_AsciiInner Proofs.Idna_C10b_AsciiWalk Proofs.Idna_C10b_Stmt Proofs.Idna_C10b_LongRej
+  Proofs.Idna_WalkEnc Proofs.Idna_C10c_Puny Proofs.Idna_C10c_Start Proofs.Idna_C10c_Drun Proofs.Idna_C10c_Idem Proofs.Idna_C10c_Example Proofs.Idna_C10c_Refute.
 
 (* a borrowed result is the input *)
 Theorem C10_borrow : forall A cfg d deny hy dns r, to_ascii A cfg d deny hy dns = Ok (true, r) -> r = d.
@@ -107,6 +110,85 @@ Check C10_case_an : forall A cfg d d' deny hy dns b r, AN d -> valid_deny deny -
   ascii_case_variant d d' -> to_ascii A cfg d deny hy dns = Ok (b, r) ->
   AN d' /\ exists b', to_ascii A cfg d' deny hy dns = Ok (b', r).
 Print Assumptions C10_case_an.
+
+(* ---- idempotence, EVERY input (Owned results, non-ASCII and xn-- labels included), every option combination, every deny
+   list the API can build, outside the class Known_C10_long of F-C10-1: the result of to_ascii is returned by to_ascii
+   unchanged and BORROWED.  Premises about the adapter only, each sampled on the real idna_adapter by the `adapter`
+   stream of the harness: AdapterOK (ok_ascii, ok_case, ok_stable, ok_fffd), AdapterUSV (adapterusv), NvNoTrunc
+   (nvnotrunc), NvIdem (ok_nv_idem), AsciiNoMark (ok_ascii_nomark), MapPrefix (ok_map_prefix: map_normalize of an ASCII
+   text followed by a text that starts with an ASCII character = the lower-cased ASCII text followed by map_normalize
+   of the rest) ---- *)
+Theorem C10_idem3 : forall A cfg, AdapterOK A -> AdapterUSV A -> NvNoTrunc A -> NvIdem A -> AsciiNoMark A -> MapPrefix A ->
+  forall d deny hy dns b r, bytes d -> valid_deny deny ->
+  to_ascii A cfg d deny hy dns = Ok (b, r) -> Known_C10_long r = false ->
+  to_ascii A cfg r deny hy dns = Ok (true, r).
+Proof. exact c10_idem3. Qed.
+Check C10_idem3 : forall A cfg, AdapterOK A -> AdapterUSV A -> NvNoTrunc A -> NvIdem A -> AsciiNoMark A -> MapPrefix A ->
+  forall d deny hy dns b r, bytes d -> valid_deny deny ->
+  to_ascii A cfg d deny hy dns = Ok (b, r) -> Known_C10_long r = false ->
+  to_ascii A cfg r deny hy dns = Ok (true, r).
+Print Assumptions C10_idem3.
+
+Theorem C10_idem3_rel : forall A cfg, C10_idem_statement3 A cfg.
+Proof. exact c10_idem3. Qed.
+Check C10_idem3_rel : forall A cfg, C10_idem_statement3 A cfg.
+Print Assumptions C10_idem3_rel.
+
+(* the six premises are satisfiable (adapter lowsan: ASCII lower-casing, non-scalar values become U+FFFD), and a
+   non-ASCII name goes through: "A.B<u-umlaut>cher" -> "a.xn--bcher-kva" (Owned), which the second call borrows *)
+Example C10_idem3_premises_hold :
+  (AdapterOK lowsan /\ AdapterUSV lowsan /\ NvNoTrunc lowsan /\ NvIdem lowsan /\ AsciiNoMark lowsan /\ MapPrefix lowsan) /\
+  to_ascii lowsan true W_idem3 DENY_URL HCheck DVerify = Ok (false, W_idem3_A) /\
+  Known_C10_long W_idem3_A = false /\
+  to_ascii lowsan true W_idem3_A DENY_URL HCheck DVerify = Ok (true, W_idem3_A).
+Proof. split; [exact lowsan_premises|exact w_idem3]. Qed.
+
+(* the premise MapPrefix was forced by the proof: C10_idem_statement2 (premises AdapterOK, NvNoTrunc, NvIdem, AsciiNoMark
+   only) is FALSE for an abstract adapter.  ctxad rewrites U+00EA to U+00EB exactly after "ab", in both normalizers; for
+   the label "ab" U+00EA uts46.rs maps only the tail "b" U+00EA, returns xn--ab-fja, and rejects that.  A refutation of
+   the STATEMENT, not a defect of the crate: the real map_normalize satisfies MapPrefix (sampled fact ok_map_prefix) *)
+Theorem C10_idem2_refuted : exists A cfg, AdapterOK A /\ NvNoTrunc A /\ NvIdem A /\ AsciiNoMark A /\ ~ C10_idem_statement2 A cfg.
+Proof. exact c10_idem2_refuted. Qed.
+Check C10_idem2_refuted : exists A cfg, AdapterOK A /\ NvNoTrunc A /\ NvIdem A /\ AsciiNoMark A /\ ~ C10_idem_statement2 A cfg.
+Print Assumptions C10_idem2_refuted.
+
+Theorem C10_idem2_witness :
+  to_ascii ctxad false W_idem2 DENY_EMPTY HAllow DIgnore = Ok (false, W_idem2_A) /\
+  Known_C10_long W_idem2_A = false /\
+  to_ascii ctxad false W_idem2_A DENY_EMPTY HAllow DIgnore = Err /\
+  map_normalize ctxad [97; 98; 234] = [97; 98; 235] /\ map_normalize ctxad [98; 234] = [98; 234].
+Proof. exact w_idem2. Qed.
+Check C10_idem2_witness :
+  to_ascii ctxad false W_idem2 DENY_EMPTY HAllow DIgnore = Ok (false, W_idem2_A) /\
+  Known_C10_long W_idem2_A = false /\
+  to_ascii ctxad false W_idem2_A DENY_EMPTY HAllow DIgnore = Err /\
+  map_normalize ctxad [97; 98; 234] = [97; 98; 235] /\ map_normalize ctxad [98; 234] = [98; 234].
+Print Assumptions C10_idem2_witness.
+
+(* the fastest tier of process_inner is invisible: process_inner is the label loop run from the start of the name
+   (both error modes, every adapter) *)
+Theorem C10_inner_from_start : forall A cfg ff hy deny d, bytes d ->
+  process_inner A cfg ff hy deny d = process_innermost A cfg ff hy deny d d.
+Proof. exact inner_from_start. Qed.
+Check C10_inner_from_start : forall A cfg ff hy deny d, bytes d ->
+  process_inner A cfg ff hy deny d = process_innermost A cfg ff hy deny d d.
+Print Assumptions C10_inner_from_start.
+
+(* three Punycode facts behind C10_idem3: the u8 decoder does not see the case of ASCII letters; the decoded text of a
+   non-empty input that does not end in '-' is not ASCII; the internal encoder never ends the Punycode form of a
+   non-ASCII label (at most 1000 scalar values, no upper-case ASCII letter) in '-' *)
+Theorem C10_puny_facts :
+  (forall cfg p, decode_with cfg U8Internal (map to_lower p) = decode_with cfg U8Internal p) /\
+  (forall cfg it p l, decode_with cfg it p = Ok l -> p <> [] -> last_opt p <> Some DELIMITER -> exists c, In c l /\ 128 <= c) /\
+  (forall cfg l p, len l <= PUNYCODE_ENCODE_MAX_INPUT_LENGTH -> usv_list l -> existsb is_upper l = false ->
+     is_ascii_l l = false -> encode_internal cfg l = Ok p -> p <> [] /\ last_opt p <> Some DELIMITER).
+Proof. split; [exact decode_u8_lower|]. split; [exact decode_nonascii|exact encode_no_trailing_delim]. Qed.
+Check C10_puny_facts :
+  (forall cfg p, decode_with cfg U8Internal (map to_lower p) = decode_with cfg U8Internal p) /\
+  (forall cfg it p l, decode_with cfg it p = Ok l -> p <> [] -> last_opt p <> Some DELIMITER -> exists c, In c l /\ 128 <= c) /\
+  (forall cfg l p, len l <= PUNYCODE_ENCODE_MAX_INPUT_LENGTH -> usv_list l -> existsb is_upper l = false ->
+     is_ascii_l l = false -> encode_internal cfg l = Ok p -> p <> [] /\ last_opt p <> Some DELIMITER).
+Print Assumptions C10_puny_facts.
 
 (* the class is decidable; membership of a concrete name is a computation *)
 Theorem C10_an_decidable : forall d, ANb d = true -> AN d.
